@@ -56,31 +56,36 @@ type KeyValue struct {
 func (kv *KeyValue) Flush() error {
 	kv.mu.Lock()
 	defer kv.mu.Unlock()
-	var (
-		bmback = kv.back.BeginBatch()
-		bmbuf  = kv.buf.BeginBatch()
-		commit = false
-		it     = kv.buf.Find("", "")
-	)
+	// Collect first and only then begin the batches: a batch of the
+	// backing store that is begun must also be committed (sqlkv holds its
+	// write gate and an open transaction from BeginBatch to CommitBatch).
+	var keys, values []string
+	it := kv.buf.Find("", "")
 	for it.Next() {
-		bmback.Set(it.Key(), it.Value())
-		bmbuf.Delete(it.Key())
-		commit = true
+		keys = append(keys, it.Key())
+		values = append(values, it.Value())
 	}
 	if err := it.Close(); err != nil {
 		return err
 	}
-	if commit {
-		if err := kv.back.CommitBatch(bmback); err != nil {
-			return err
-		}
-		if err := kv.buf.CommitBatch(bmbuf); err != nil {
-			return err
-		}
-		kv.bufMu.Lock()
-		kv.buffered = 0
-		kv.bufMu.Unlock()
+	if len(keys) == 0 {
+		return nil
 	}
+	bmback := kv.back.BeginBatch()
+	bmbuf := kv.buf.BeginBatch()
+	for i, key := range keys {
+		bmback.Set(key, values[i])
+		bmbuf.Delete(key)
+	}
+	if err := kv.back.CommitBatch(bmback); err != nil {
+		return err
+	}
+	if err := kv.buf.CommitBatch(bmbuf); err != nil {
+		return err
+	}
+	kv.bufMu.Lock()
+	kv.buffered = 0
+	kv.bufMu.Unlock()
 	return nil
 }
 
